@@ -284,6 +284,29 @@ impl Scenario for C16 {
                         out_step(&mut cs, &mut ds, &mut ctr, inner, i, st, "clone.")?;
                         // the original must still hand out its pending half afterwards (tr unchanged)
                     }
+                    Op::CloneFromThen(inner) => {
+                        // destination generators that are already in use and hold a pending half,
+                        // then overwritten with Clone::clone_from(&current): still "a clone"
+                        let (g, t) = (real.g.as_ref(), twin.g.as_ref());
+                        let c = sut(guard(|| g.boxed_clone()), "clone")?;
+                        let d = sut(guard(|| t.boxed_clone()), "clone")?;
+                        let mut cs = Side { g: c };
+                        let mut ds = Side { g: d };
+                        let _ = u32_of(&mut cs)?; // leaves a half pending in the destination
+                        let _ = u64_of(&mut ds)?; // the twin stays half-free
+                        {
+                            let (src, dst) = (real.g.as_ref(), cs.g.as_mut());
+                            sut(guard(|| dst.clone_from_dyn(src)), "clone_from")?;
+                            let (src, dst) = (twin.g.as_ref(), ds.g.as_mut());
+                            sut(guard(|| dst.clone_from_dyn(src)), "clone_from")?;
+                        }
+                        if tr.pending.is_some() {
+                            st.count("probe:clone_with_half_pending");
+                        }
+                        st.count("probe:clone_from_into_used_generator");
+                        let mut ctr = Track { pending: None, optional: false, rounds: tr.rounds };
+                        out_step(&mut cs, &mut ds, &mut ctr, inner, i, st, "clone_from.")?;
+                    }
                     _ => {}
                 }
             }
@@ -296,7 +319,7 @@ impl Scenario for C16 {
         }
     }
     fn rule(&self) -> String {
-        "Each run: a JitterRng over a scripted clock (same clock profiles and fault catalogue as C12, rounds 1..=255) with a workload biased to next_u32 pairs, next_u32 followed by each other output call, and clone while a half is pending; a twin over the same script is driven in lock-step with fresh-collection calls only. Per call, from the clock's read counter: the second of two consecutive next_u32 reads the timer 0 times and the pair equals the twin's next_u64; every other output call reads at least rounds (x number of 64-bit values) times and equals the twin's value (so a pending half is discarded, never re-served); the first output of a clone reads its own forked clock at least rounds times and equals the first output of the twin's clone (which never had a half pending); the original still serves its pending half afterwards. fill_bytes(1..=4)/fill_bytes(0) with a half pending: both 'takes the pending half, reads nothing' and 'discards it' are accepted. distinct_nontrivial = distinct (op kind, op applied to clone, half pending, rounds bucket, fill length bucket) signatures.".into()
+        "Each run: a JitterRng over a scripted clock (same clock profiles and fault catalogue as C12, rounds 1..=255) with a workload biased to next_u32 pairs, next_u32 followed by each other output call, and clone while a half is pending; a twin over the same script is driven in lock-step with fresh-collection calls only. Per call, from the clock's read counter: the second of two consecutive next_u32 reads the timer 0 times and the pair equals the twin's next_u64; every other output call reads at least rounds (x number of 64-bit values) times and equals the twin's value (so a pending half is discarded, never re-served); the first output of a clone (made with clone(), or with clone_from() into a generator that is already in use and holds a pending half) reads its own forked clock at least rounds times and equals the first output of the twin's clone (which never had a half pending); the original still serves its pending half afterwards. fill_bytes(1..=4)/fill_bytes(0) with a half pending: both 'takes the pending half, reads nothing' and 'discards it' are accepted. distinct_nontrivial = distinct (op kind, op applied to clone, half pending, rounds bucket, fill length bucket) signatures.".into()
     }
     fn assumptions(&self) -> Vec<String> {
         vec![
@@ -316,6 +339,7 @@ impl Scenario for C16 {
             "probe:clone_first_output",
             "probe:small_fill_with_half",
             "probe:fill0_with_half",
+            "probe:clone_from_into_used_generator",
         ]
     }
 }
